@@ -483,7 +483,7 @@ theorem rerun_role_moved_away (pre : List Bool) : releaseAfterRuns (pre ++ [fals
 
 /-- the library is told the OLD threshold of the start parameters for the old sharing and the process's own NEW
     threshold for the new one — whatever their order (raising, lowering, equal). Definitional (`rfl`): it documents the
-    model; that the CODE passes these arguments is Oblig/C08 `gen_reshare_args` and op `reshareparams` -/
+    model; that the CODE passes these arguments is Oblig/C08 `gen_reshare_roles` and op `reshareparams` -/
 theorem reshareParams_thresholds (kp store : List Peer) (thr nthr : Int) :
     (reshareParams (startParams kp thr store) nthr store).oldThreshold = thr ∧
     (reshareParams (startParams kp thr store) nthr store).newThreshold = nthr ∧
